@@ -1,7 +1,9 @@
 """C05: epgpy/diffusion.py (compute_bmatrix, diffusion_operator) -> coq/Gen/Diffusion.v
 
 The two functions are executed symbolically by a subclass of translator.symex.Interp that adds exactly the numpy
-idioms they use (nested `outer` helper with newaxis broadcasting, atleast_2d on a vector, the static shape guards,
+idioms they use (new-axis broadcasting of a vector and the column * row outer product, wherever it is written:
+inline, in a nested closure or in a module-level helper; chained assignment; conditional expressions with a static
+test; atleast_2d on a vector, the static shape guards,
 the `allclose(kd, 0)` branch taken as a specialisation switch, diagonal gather `b[..., idiag, idiag]`, `sum` over
 the last axis / the last two axes, element-wise product of two matrices).  Anything else raises Unsupported
 (fail closed: the check reports the translator as a broken obligation).
@@ -16,12 +18,19 @@ from fractions import Fraction
 from . import symex
 from .symex import R, Cx, Arr, NONE, Unsupported, cmul, cadd, coq_r
 
-OUTER_SRC = "def outer(a, b):\n    return a[..., xp.newaxis] * b[..., xp.newaxis, :]\n"
-OUTER_DUMP = ast.dump(ast.parse(OUTER_SRC).body[0])
+class LocalFn:
+    """nested function definition (closure over the defining environment)"""
+
+    def __init__(self, node, env):
+        self.node, self.env = node, env
 
 
-class OuterFn:
-    pass
+class Bcast:
+    """a vector indexed with a new axis: v[..., newaxis] (kind 'col', shape (n,1)) or v[..., newaxis, :] (kind 'row',
+    shape (1,n)); only the product col * row / row * col (an outer product) is defined on these"""
+
+    def __init__(self, kind, vec):
+        self.kind, self.vec = kind, vec
 
 
 class Arange:
@@ -40,10 +49,17 @@ class DInterp(symex.Interp):
     # ---- statements
     def stmt(self, st, env):
         if isinstance(st, ast.FunctionDef):
-            if st.name == "outer" and ast.dump(st) == OUTER_DUMP:
-                env["outer"] = OuterFn()
-                return None
-            raise Unsupported("nested function %s is not the known outer-product helper" % st.name)
+            a = st.args
+            if a.defaults or a.kwonlyargs or a.vararg or a.kwarg or a.posonlyargs or st.decorator_list:
+                raise Unsupported("signature of nested function %s" % st.name)
+            env[st.name] = LocalFn(st, env)
+            return None
+        if isinstance(st, ast.Assign) and len(st.targets) > 1:
+            # chained assignment a = b = e: one evaluation, every target bound to the same object (as in Python)
+            v = self.expr(st.value, env)
+            for t in st.targets:
+                self.assign(t, v, env)
+            return None
         if isinstance(st, ast.Raise):
             raise Unsupported("raise reached on the modelled path")
         return super().stmt(st, env)
@@ -55,7 +71,36 @@ class DInterp(symex.Interp):
             v = self.expr(e.value.value, env)
             if isinstance(v, Arr):
                 return v.tshape[-1]
+        if (isinstance(e, ast.Subscript) and self.intlit_ok(e.slice) == -1 and isinstance(e.value, ast.Call)
+                and isinstance(e.value.func, ast.Attribute) and isinstance(e.value.func.value, ast.Name)
+                and e.value.func.value.id in ("np", "xp") and e.value.func.attr == "shape"
+                and len(e.value.args) == 1 and not e.value.keywords):
+            v = self.expr(e.value.args[0], env)
+            if isinstance(v, Arr):
+                return v.tshape[-1]
+            raise Unsupported("np.shape(x)[-1] of a non-array")
         return None
+
+    @staticmethod
+    def is_newaxis(n):
+        return ((isinstance(n, ast.Attribute) and n.attr == "newaxis" and isinstance(n.value, ast.Name) and n.value.id in ("np", "xp"))
+                or (isinstance(n, ast.Constant) and n.value is None))
+
+    @staticmethod
+    def is_fullslice(n):
+        return isinstance(n, ast.Slice) and n.lower is None and n.upper is None and n.step is None
+
+    def call_local(self, fn, args):
+        params = [a.arg for a in fn.node.args.args]
+        if len(params) != len(args):
+            raise Unsupported("arity of nested function %s" % fn.node.name)
+        env = dict(fn.env)                     # reads see the defining scope (late binding), writes stay local
+        env.update(zip(params, args))
+        for st in fn.node.body:
+            r = self.stmt(st, env)
+            if r is not None:
+                return r[0]
+        raise Unsupported("%s does not return" % fn.node.name)
 
     def intlit_ok(self, n):
         try:
@@ -80,24 +125,45 @@ class DInterp(symex.Interp):
         if isinstance(t, ast.Call) and isinstance(t.func, ast.Attribute) and isinstance(t.func.value, ast.Name):
             mod, name = t.func.value.id, t.func.attr
             if mod == "common" and name == "isscalar" and len(t.args) == 1 and not t.keywords:
-                return isinstance(self.expr(t.args[0], env), Cx)
-            if mod == "xp" and name == "allclose" and not t.keywords and len(t.args) == 2:
+                v = self.expr(t.args[0], env)
+                return isinstance(v, Cx) or v is NONE       # len(None) raises TypeError: isscalar(None) is True
+            if mod in ("xp", "np") and name == "allclose" and not t.keywords and len(t.args) == 2:
                 a0, a1 = t.args
-                if (isinstance(a0, ast.Name) and a0.id == "kd" and isinstance(a1, ast.Constant) and a1.value == 0
-                        and isinstance(env.get("kd"), Arr)):
+                v = self.expr(a0, env)
+                if (isinstance(a1, ast.Constant) and a1.value == 0 and not isinstance(a1.value, bool)
+                        and isinstance(v, Arr) and len(v.tshape) == 1 and all(is_k_difference(v.get(k)) for k in v.indices())):
                     self.saw_allclose = True
                     return self.close
-                raise Unsupported("allclose arguments")
+                raise Unsupported("allclose arguments (expected: a difference f(k2) - f(k1) of the two wavenumber vectors, 0)")
         return super().static_cond(t, env)
 
     # ---- expressions
     def expr(self, e, env):
-        if isinstance(e, ast.Name) and isinstance(env.get(e.id), (OuterFn, Arange)):
+        if isinstance(e, ast.Name) and isinstance(env.get(e.id), (LocalFn, Arange)):
             return env[e.id]
+        if isinstance(e, ast.IfExp):
+            return self.expr(e.body if self.static_cond(e.test, env) else e.orelse, env)
         if isinstance(e, ast.Subscript):
             d = self.dim_of(e, env)
             if d is not None:
                 return Cx(R.const(d))
+            # new-axis broadcasting of a vector: v[..., newaxis] / v[..., :, newaxis] (column), v[..., newaxis, :] (row)
+            sl0 = e.slice
+            if (isinstance(sl0, ast.Tuple) and sl0.elts and isinstance(sl0.elts[0], ast.Constant) and sl0.elts[0].value is Ellipsis
+                    and any(self.is_newaxis(x) for x in sl0.elts[1:])):
+                rest = sl0.elts[1:]
+                if len(rest) == 1 and self.is_newaxis(rest[0]):
+                    kind = "col"
+                elif len(rest) == 2 and self.is_fullslice(rest[0]) and self.is_newaxis(rest[1]):
+                    kind = "col"
+                elif len(rest) == 2 and self.is_newaxis(rest[0]) and self.is_fullslice(rest[1]):
+                    kind = "row"
+                else:
+                    raise Unsupported("new-axis indexing form")
+                v = self.expr(e.value, env)
+                if not (isinstance(v, Arr) and len(v.tshape) == 1):
+                    raise Unsupported("new-axis indexing of a non-vector")
+                return Bcast(kind, v)
             # diagonal gather b[..., idiag, idiag]
             sl = e.slice
             if (isinstance(sl, ast.Tuple) and len(sl.elts) == 3 and isinstance(sl.elts[0], ast.Constant)
@@ -114,6 +180,18 @@ class DInterp(symex.Interp):
         return super().expr(e, env)
 
     def binop(self, op, a, b):
+        if isinstance(a, Bcast) or isinstance(b, Bcast):
+            if not (isinstance(a, Bcast) and isinstance(b, Bcast) and isinstance(op, ast.Mult) and a.kind != b.kind
+                    and a.vec.tshape == b.vec.tshape):
+                raise Unsupported("operation on a broadcast vector other than column * row")
+            n = a.vec.tshape[0]
+            col, row = (a, b) if a.kind == "col" else (b, a)
+            r = Arr((n, n), None)
+            for i in range(n):
+                for j in range(n):
+                    x, y = col.vec.get((i,)), row.vec.get((j,))
+                    r.e[(i, j)] = cmul(x, y) if a.kind == "col" else cmul(y, x)     # operand order as written
+            return r
         if isinstance(a, Arr) and isinstance(b, Arr) and isinstance(op, ast.Mult):
             if a.tshape != b.tshape:
                 raise Unsupported("array shapes")
@@ -126,18 +204,11 @@ class DInterp(symex.Interp):
     def callexpr(self, e, env):
         f = e.func
         kw = {k.arg: k.value for k in e.keywords}
-        if isinstance(f, ast.Name) and isinstance(env.get(f.id), OuterFn):
-            if kw or len(e.args) != 2:
-                raise Unsupported("outer call form")
-            a, b = (self.expr(x, env) for x in e.args)
-            if not (isinstance(a, Arr) and isinstance(b, Arr) and len(a.tshape) == 1 and a.tshape == b.tshape):
-                raise Unsupported("outer of non-vectors")
-            n = a.tshape[0]
-            r = Arr((n, n), None)
-            for i in range(n):
-                for j in range(n):
-                    r.e[(i, j)] = cmul(a.get((i,)), b.get((j,)))
-            return r
+        if isinstance(f, ast.Name) and isinstance(env.get(f.id), LocalFn):
+            if kw:
+                raise Unsupported("keyword call of a nested function")
+            args = [self.expr(x, env) for x in e.args]
+            return self.call_local(env[f.id], [x.copy() if isinstance(x, Arr) else x for x in args])
         if isinstance(f, ast.Attribute) and isinstance(f.value, ast.Name) and f.value.id in ("xp", "np", "common"):
             mod, name = f.value.id, f.attr
             if mod == "common" and name == "get_array_module" and not e.args and not kw:
@@ -169,6 +240,25 @@ class DInterp(symex.Interp):
 
 
 # ---------------------------------------------------------------- helpers on expression trees
+def is_k_difference(c):
+    """real expression of the form A - B where A is B with every k1_* replaced by k2_* (so it vanishes at k2 = k1)"""
+    if not isinstance(c, Cx) or not c.is_real or c.re.op != "sub":
+        return False
+    A, B = c.re.args
+
+    def names(e, acc):
+        if e.op == "var":
+            acc.add(e.args[0])
+        for x in e.args:
+            if isinstance(x, R):
+                names(x, acc)
+        return acc
+    nb = names(B, set())
+    if not nb or not all(n.startswith("k1_") for n in nb):
+        return False
+    return subst(B, {n: "k2_" + n[3:] for n in nb}).key() == A.key()
+
+
 def subst(e, ren):
     if e.op == "var":
         return R.var(ren.get(e.args[0], e.args[0]))
